@@ -691,6 +691,11 @@ def _eq(a, b):
 _is_dict = lambda x: isinstance(x, dict)
 
 
+def _is_skip(key) -> bool:
+  # A plain 'SKIP' str is an ordinary key, only the reserved one is special.
+  return isinstance(key, tree.Reserved) and key == tree.Key.SKIP
+
+
 @dataclasses.dataclass(frozen=True, kw_only=True, eq=False)
 class TreeTransform(Generic[TreeFnT]):
   """A lazy transform interface that works on a map like data.
@@ -917,7 +922,9 @@ class TreeTransform(Generic[TreeFnT]):
       # the inputs with its outputs, so the keys before it are gone.
       if type(fn) is tree_fns.TreeFn or isinstance(fn, tree_fns.Select):  # pylint: disable=unidiomatic-typecheck
         result = set()
-      result.update(itertools.chain(non_dict_keys, *dict_keys))
+      # SKIP marks a dropped output, it is not a key of the outputs.
+      keys = itertools.chain(non_dict_keys, *dict_keys)
+      result.update(k for k in keys if not _is_skip(k))
     return result
 
   @property
@@ -936,11 +943,11 @@ class TreeTransform(Generic[TreeFnT]):
   ):
     """Checks the assign keys are valid."""
     non_dict_keys, dict_keys = mit.partition(_is_dict, assign_keys)
-    new_keys = list(itertools.chain(non_dict_keys, *dict_keys))
-    # The set below hides the keys repeated within this assignment. SKIP only
-    # drops an output, so it can be repeated.
+    # SKIP marks a dropped output, it neither conflicts nor mixes with SELF.
+    new_keys = itertools.chain(non_dict_keys, *dict_keys)
+    new_keys = [k for k in new_keys if not _is_skip(k)]
+    # The set below hides the keys repeated within this assignment.
     repeated_keys = {k for k in new_keys if new_keys.count(k) > 1}
-    repeated_keys.discard(tree.Key.SKIP)
     new_keys = set(new_keys)
     if exisiting_keys is None:
       exisiting_keys = self.output_keys
